@@ -42,7 +42,8 @@ var Variants = map[string][]Node{
 	"default": {
 		{K: "default", DefF: map[string]Val{"w": iv(7)}, DefT: map[string]string{"p": "z"}},
 		{K: "default", DefF: map[string]Val{"v": fv(1.5)}, DefT: map[string]string{"h": "c"}},
-		{K: "default", DefF: map[string]Val{"v": sv("s"), "b": bv(true)}, DefT: map[string]string{}},
+		// also a field named like an eval result of the grid (a), so that eval|... sees a result shadow a field
+		{K: "default", DefF: map[string]Val{"v": sv("s"), "b": bv(true), "a": iv(10)}, DefT: map[string]string{}},
 	},
 	"delete": {
 		{K: "delete", Fields: []string{"w"}, Tags: []string{"p"}},
